@@ -7,6 +7,10 @@
 // the pre-order and in-order walks (reconstructed; with duplicate values the
 // node structure is read by reflection and checked against the walks) is
 // height-balanced at every node and no deeper than 1.4405*log2(n+2) levels.
+// A further oracle-only stream builds the tree with a call-counting comparator
+// (natural order, or an arbitrary function: balance must not depend on the
+// order) and also checks the cost consequence: at most one comparator call per
+// level for Contains, Add and Remove.
 package c02
 
 import (
